@@ -147,7 +147,9 @@ def _serialize_field(
         # TODO do we need to set the shape to empty?
         #  do we need to treat missing strings differently from empty strings?
         return ObjectArray(
-            ty=field.ty, shape=(len(field.value),) if field.value else (), data=[field]
+            ty=field.ty,
+            shape=(len(field.value.encode('utf-8')),) if field.value else (),
+            data=[field],
         )
     if isinstance(field, Array):
         return ObjectArray(ty=field.ty, shape=field.value.shape[::-1], data=field.value)
